@@ -115,6 +115,71 @@ pub fn strategy() -> impl Strategy<Value = Case> {
         })
 }
 
+/// Size-boundary mode: one wide layer of mutually independent targets (group sizes
+/// around 32 / 64 / 128) and a few dependents that use most of them; dependencies are
+/// slower than dependents.
+pub fn strategy_wide(max_width: usize) -> impl Strategy<Value = Case> {
+    (
+        prop_oneof![
+            3 => 28usize..=40,
+            2 => 60usize..=70,
+            1 => 12usize..=130,
+        ],
+        1usize..=3,
+        vec(any::<u16>(), 64),
+        1usize..=2,
+        0u8..3,
+    )
+        .prop_map(move |(width, tops, picks, ncmd, mode_k)| {
+            let width = width.min(max_width);
+            let mut targets = vec![];
+            for i in 0..width {
+                targets.push(crate::model::TargetSpec::new(&format!("w{:03}", i)));
+            }
+            for j in 0..tops {
+                let mut t = crate::model::TargetSpec::new(&format!("top{}", j));
+                // uses most of the wide layer, in a generated order
+                for i in 0..width {
+                    if picks[(i + 7 * j) % picks.len()] % 8 != 0 {
+                        t.uses.push(format!("w{:03}", (i * 37 + j) % width));
+                    }
+                }
+                t.uses.sort();
+                t.uses.dedup();
+                targets.push(t);
+            }
+            // declaration order: generated rotation, so that "the first 32" differ between cases
+            let rot = picks[0] as usize % targets.len();
+            targets.rotate_left(rot);
+            let config = ConfigSpec {
+                targets,
+                ..Default::default()
+            };
+            let names: Vec<String> = (0..ncmd).map(|i| format!("c{}", i)).collect();
+            let mut sleeps = vec![];
+            for c in &names {
+                for t in &config.targets {
+                    let ms = if t.path.starts_with('w') { 40 } else { 0 };
+                    sleeps.push((c.clone(), t.path.clone(), ms));
+                }
+            }
+            let tops_list: Vec<String> = (0..tops).map(|j| format!("top{}", j)).collect();
+            let mode = match mode_k {
+                0 => Mode::All,
+                1 => Mode::Changed(config.target_paths()),
+                _ => Mode::Deps(tops_list),
+            };
+            Case {
+                config,
+                mode,
+                seq_args: vec![],
+                cmd_args: names,
+                sleeps,
+                timing: "deps-slower".into(),
+            }
+        })
+}
+
 pub fn expected_commands(case: &Case) -> Vec<String> {
     let mut v = vec![];
     for s in &case.seq_args {
@@ -267,11 +332,13 @@ pub fn check(case: &Case, w: usize) -> CheckResult {
         .class_if(earlier_slower, "earlier-command-slower")
         .class_if(!case.seq_args.is_empty() && !case.cmd_args.is_empty(), "sequences+commands")
         .class_if(in_run.is_empty(), "empty-run")
+        .class_if(in_run.len() > 32, "targets>32")
+        .class_if(in_run.len() > 64, "targets>64")
         .inv(env.invocations))
 }
 
 pub fn run(ctx: &mut Ctx) {
-    ctx.rule = "acyclic configuration (<=10 targets) x selection mode (all / changed / -t --deps) x 1-4 commands split over -s sequences and -c \
+    ctx.rule = "acyclic configuration (<=10 targets; plus a size-boundary mode with one layer of 12-70 (thorough: 130) independent targets, biased to 28-40 and 60-70, below 1-3 dependents) x selection mode (all / changed / -t --deps) x 1-4 commands split over -s sequences and -c \
 x run-time assignment (zero / random / dependencies slower than dependents / earlier command slower); all helpers exit 0. oracle over helper traces \
 (CLOCK_MONOTONIC): start(T,c) >= end(U,c) for every dep(T,U) in the run, min start(c[i+1]) >= max end(c[i]), result command order == documented order. \
 non-trivial = a dependency pair whose dependency sleeps longer than its dependent, or two consecutive commands with the earlier one slower; distinct by SHA-256"
@@ -282,6 +349,9 @@ non-trivial = a dependency pair whose dependency sleeps longer than its dependen
     ];
     let n = ctx.n(250, 5000);
     ctx.drive("run", strategy, n, check);
+    let n2 = ctx.n(24, 400);
+    let max_width = if ctx.thorough() { 130 } else { 70 };
+    ctx.drive("wide", || strategy_wide(max_width), n2, check);
 }
 
 pub fn replay(ctx: &Ctx, label: &str, case: Value) -> Result<(), String> {
